@@ -16,8 +16,11 @@ EXTENDS Naturals, Sequences, FiniteSets, TLC
 
 CONSTANTS Producers, SpansPer, QCap, MaxBatch, Blocking, Flushers, Stoppers,
           AllowKnown,    \* TRUE: admit the known deviations of the code (see Contract)
-          CodeShape,     \* "current" | "pre-ada0bc0" (blocking sends did not look at stopCh: D2/D3) |
-                         \* "proposed" (current + proposed_fixes/C01-*.diff: D6 and D7 repaired)
+          CodeShape,     \* "current" = /repo with the three repairs below; each other value lacks one of them:
+                         \* "pre-6258232" ForceFlush went on to export when its marker was not enqueued (D6)
+                         \* "pre-af9523f" only the first Shutdown caller waited for the drain (D7)
+                         \* "pre-ada0bc0" the historic shape: blocking sends did not look at stopCh (D2/D3),
+                         \*               and neither of the two later repairs
           Outcomes,      \* subset of {"ok", "error", "timeout"}: what an ExportSpans call may answer
           ExportTimeout, \* BOOLEAN: o.ExportTimeout > 0 (exportSpans derives a ctx with deadline)
           Expiring,      \* subset of Flushers \cup Stoppers: callers whose ctx may become done during the call
@@ -48,8 +51,9 @@ Span(id) == [t |-> "span", id |-> id]
 Marker(f) == [t |-> "marker", f |-> f]
 Procs == Producers \cup Flushers \cup Stoppers \cup {"w"}
 Callers == Flushers \cup Stoppers
-Current == CodeShape \in {"current", "proposed"}
-Proposed == CodeShape = "proposed"
+SelectsStopCh == CodeShape # "pre-ada0bc0"                    \* ada0bc0
+FFCtxFix == CodeShape \in {"current", "pre-af9523f"}          \* 6258232
+SDWaitFix == CodeShape \in {"current", "pre-6258232"}         \* af9523f
 
 Init ==
   /\ queue = <<>> /\ batch = <<>> /\ mutex = "none" /\ dropped = 0
@@ -71,10 +75,9 @@ Go(x, l) == pc' = [pc EXCEPT ![x] = l]
 (* whose helper exports: its ctx is the caller's, so it carries a deadline if *)
 (* the caller's does, or if ExportTimeout > 0.                                *)
 HasDeadline(who) == ExportTimeout \/ who \in Expiring
-(* the ctx of some Shutdown call is done and the exporter has not been shut down yet: the drain that   *)
-(* call started may still be running although the call has returned (D5); EarlyNil(N): some OTHER      *)
+(* the ctx of some Shutdown call is done and the exporter has not been shut down yet (the drain that   *)
+(* call started may still be running although the call has returned its ctx error), and some OTHER     *)
 (* Shutdown call (one of N) has returned nil meanwhile (D7)                                             *)
-DrainOutlives == Stoppers \cap expired # {} /\ ~mon.expShut
 EarlyNil(N) == ~mon.expShut /\ \E o \in Stoppers \cap expired : N \ {o} # {}
 ExportBegin(m, who) ==
   [m EXCEPT !.inflight = batch,
@@ -82,9 +85,10 @@ ExportBegin(m, who) ==
             !.bad = @ \cup (IF m.inflight # <<>> THEN {"concurrent-export"} ELSE {})
                       \cup (IF Len(batch) > MaxBatch THEN {"batch-too-large"} ELSE {})
                       \cup (IF ExportTimeout /\ ~HasDeadline(who) THEN {"export-without-deadline"} ELSE {})
+                      \* "nothing is exported after Shutdown has returned": Shutdown calls that returned nil (an
+                      \* export after a Shutdown that returned its ctx error is an observation, not a violation)
                       \cup (IF m.expShut THEN {"export-after-shutdown"}
-                            ELSE IF ~(m.shutRet \/ m.sdRetErr) THEN {}
-                            ELSE IF m.nilRet = {} /\ DrainOutlives THEN {"D5-export-after-expired-shutdown"}
+                            ELSE IF m.nilRet = {} THEN {}
                             ELSE IF EarlyNil(m.nilRet) THEN {"D7-shutdown-nil-while-expired-drain-runs"}
                             ELSE {"export-after-shutdown"})]
 (* the answers an export by `who` may get now: "timeout" = the exporter waits for ctx.Done() *)
@@ -110,7 +114,7 @@ PEnq(p) == /\ pc[p] = "enq"
                  /\ dropped' = dropped + 1
                  /\ mon' = [mon EXCEPT !.droppedIds = @ \cup {id}]
                  /\ UNCHANGED queue
-              \/ /\ Blocking /\ Current /\ stopCh       \* abandoned: neither enqueued nor counted
+              \/ /\ Blocking /\ SelectsStopCh /\ stopCh       \* abandoned: neither enqueued nor counted
                  /\ mon' = [mon EXCEPT !.abandonedIds = @ \cup {id}]
                  /\ UNCHANGED <<queue, dropped>>
            /\ Go(p, "ret")
@@ -172,12 +176,12 @@ FCheck(f) == /\ pc[f] = "check"
 FEnq(f) == /\ pc[f] = "enq"
            /\ \/ /\ Len(queue) < QCap
                  /\ queue' = Append(queue, Marker(f)) /\ Go(f, "wait") /\ UNCHANGED <<hx, mon, err>>
-              \/ /\ Current /\ stopCh
+              \/ /\ SelectsStopCh /\ stopCh
                  /\ FEarly(f) /\ UNCHANGED <<queue, hx, err>>
               \/ /\ f \in expired
-                 /\ IF Current /\ stopped
+                 /\ IF SelectsStopCh /\ stopped
                       THEN (FEarly(f) /\ UNCHANGED <<queue, hx, err>>)
-                      ELSE IF Proposed        \* proposed fix of D6: marker not enqueued and ctx done -> ctx.Err()
+                      ELSE IF FFCtxFix        \* 6258232: marker not enqueued and ctx done -> ctx.Err()
                       THEN (Go(f, "ret") /\ err' = [err EXCEPT ![f] = "ctx"] /\ UNCHANGED <<queue, hx, mon>>)
                       ELSE /\ Go(f, "waitexp") /\ hx' = [hx EXCEPT ![f] = "lock"]
                            /\ mon' = [mon EXCEPT !.nomarker[f] = TRUE] /\ UNCHANGED <<queue, err>>
@@ -228,9 +232,11 @@ HWait == /\ hs = "wait" /\ pc["w"] = "done" /\ hs' = "done"       \* stopWait.Wa
 SWait(s) == /\ pc[s] = "waitdone" /\ hs = "done" /\ Go(s, "ret") /\ UNCHANGED <<proto, mon>>
 SCtx(s) == /\ pc[s] = "waitdone" /\ s \in expired /\ Go(s, "ret") /\ err' = [err EXCEPT ![s] = "ctx"]
            /\ UNCHANGED <<queue, batch, mutex, dropped, stopped, stopCh, flushed, pidx, wret, wtmp, hx, hres, hs, expired, mon>>
-(* proposed fix of D7: the Once body only starts the helper; EVERY caller then waits for it or for its own ctx *)
+(* af9523f: the Once body only starts the helper; EVERY caller then waits for it or for its own ctx.    *)
+(* Before: the body itself waited (SWait / SCtx by the first caller), later callers returned nil as soon  *)
+(* as the body had returned.                                                                              *)
 SOnceWait(s) == /\ pc[s] = "oncewait"
-                /\ IF Proposed THEN (\E o \in Stoppers : pc[o] \notin {"idle", "set", "oncewait"}) /\ Go(s, "waitdone")
+                /\ IF SDWaitFix THEN (\E o \in Stoppers : pc[o] \notin {"idle", "set", "oncewait"}) /\ Go(s, "waitdone")
                                ELSE (\E o \in Stoppers : pc[o] \in {"ret", "done"}) /\ Go(s, "ret")
                 /\ UNCHANGED <<proto, mon>>
 SRet(s) == /\ pc[s] = "ret" /\ Go(s, "done")
@@ -278,19 +284,19 @@ BatchBound == Len(batch) <= MaxBatch
 (*  D4  a span whose OnEnd passed the stopped check before Shutdown set the flag is enqueued after the     *)
 (*      drain finished, or (blocking mode, current shape) abandoned because stopCh is closed: never        *)
 (*      exported, not counted as dropped; a later Shutdown call still returns nil.                          *)
-(*  D5  Shutdown whose ctx expires returns ctx.Err() while the drain it started keeps running: spans are    *)
-(*      exported after that Shutdown has returned (with an error).                                          *)
-(*  D7  ... and a later Shutdown (sync.Once already done) returns nil at once, before that drain has       *)
-(*      handed the spans over; spans are exported after it returned nil.                                    *)
-(*  D6  ForceFlush whose ctx expires before the marker is enqueued still exports the current batch; if      *)
+(*  D7  (pre-af9523f) after a Shutdown whose ctx expired has returned ctx.Err() (drain still running) a  *)
+(*      later Shutdown (sync.Once already done) returns nil at once, before that drain has handed the      *)
+(*      spans over; spans are exported after it returned nil.                                               *)
+(*  D6  (pre-6258232) ForceFlush whose ctx expires before the marker is enqueued exports the current batch; if *)
 (*      that export finishes first it returns nil without having waited for the spans queued before it.    *)
 (* D2/D3 (pre-ada0bc0: blocking sends that never return after the drain) are liveness defects: see Stuck.  *)
-KnownDeviations == {"D1-flush-during-shutdown", "D4-enqueue-after-drain", "D5-export-after-expired-shutdown",
-                    "D6-flush-nil-without-marker", "D7-shutdown-nil-while-expired-drain-runs"}
+(* D1 and D4 are still in /repo; D6 / D7 belong to the shapes that lack their repair *)
+KnownDeviations == {"D1-flush-during-shutdown", "D4-enqueue-after-drain"}
+                   \cup (IF FFCtxFix THEN {} ELSE {"D6-flush-nil-without-marker"})
+                   \cup (IF SDWaitFix THEN {} ELSE {"D7-shutdown-nil-while-expired-drain-runs"})
 Contract == mon.bad \subseteq (IF AllowKnown THEN KnownDeviations ELSE {})
 NoD1 == "D1-flush-during-shutdown" \notin mon.bad
 NoD4 == "D4-enqueue-after-drain" \notin mon.bad
-NoD5 == "D5-export-after-expired-shutdown" \notin mon.bad
 NoD7 == "D7-shutdown-nil-while-expired-drain-runs" \notin mon.bad
 NoD6 == "D6-flush-nil-without-marker" \notin mon.bad
 DroppedCounted == dropped = Cardinality(mon.droppedIds)
